@@ -44,7 +44,8 @@ Record irun := { i_ok : bool;                       (* false: a Sigma error was 
                  i_fm : list (str * list str);
                  i_tf : list (str * list str);
                  i_cn : list str;                   (* identifiers drawn by add_condition items *)
-                 i_fn : list str;                   (* prefixes drawn by filters *)
+                 i_fn : list str;                   (* prefixes the filters ended up with *)
+                 i_fd : list (list str);            (* candidate draws consumed by each filter application *)
                  i_tree : itree }.
 
 Inductive top := TAdd (s : str) (t : list str) | TMerge (other : list (str * list str)).
@@ -101,12 +102,17 @@ Definition agree (O : order) (s : site) (r : irun) : bool :=
       end
   | SFlags fl => i_ok r && prefixb (flag_prefix O fl ++ re_body ++ nl) (i_text r)
   | SNames ru fs adds =>
-      if Nat.eqb (length (i_fn r)) (length fs) && Nat.eqb (length (i_cn r)) (length adds) then
-        match names_run ru (combine (i_fn r) fs) (combine (i_cn r) adds) with
-        | RQ q => i_ok r && itree_eqb (to_itree q) (i_tree r)
-        | RUndef n => negb (i_ok r) && str_eqb (i_text r) n
-        end
-      else false
+      (* the redraw loop, replayed on the draws the process really made, must accept exactly the prefix seen *)
+      match choose (i_fd r) fs ru with
+      | Some ch =>
+          strs_eqb (map fst ch) (i_fn r) && forallb (fun x => match snd x with [] => true | _ => false end) ch
+          && Nat.eqb (length (i_cn r)) (length adds)
+          && match names_run ru (combine (i_fn r) fs) (combine (i_cn r) adds) with
+             | RQ q => i_ok r && itree_eqb (to_itree q) (i_tree r)
+             | RUndef n => negb (i_ok r) && str_eqb (i_text r) n
+             end
+      | None => false
+      end
   | STracking ops =>
       let st := run_tracking O ops in
       i_ok r && dict_eqb (i_fm r) (fst st) && dict_eqb (i_tf r) (sort_keys (snd st))
@@ -127,6 +133,15 @@ Fixpoint has_id (s : str) : bool :=
   | _ :: r => id_here s || has_id r
   end.
 
+Fixpoint infixb (d s : str) : bool :=
+  match s with
+  | [] => match d with [] => true | _ => false end
+  | _ :: r => prefixb d s || infixb d r
+  end.
+(* no identifier this very process drew occurs in its query / error text *)
+Definition leaks (r : irun) : bool :=
+  has_id (i_text r) || existsb (fun d => infixb d (i_text r)) (i_fn r ++ i_cn r).
+
 Definition same_run (a b : irun) : bool :=
   Bool.eqb (i_ok a) (i_ok b) && str_eqb (i_text a) (i_text b)
   && list_eqb strs_eqb (i_fields a) (i_fields b) && dict_eqb (i_fm a) (i_fm b) && dict_eqb (i_tf a) (i_tf b)
@@ -135,7 +150,7 @@ Definition same_run (a b : irun) : bool :=
 Definition spec_ok (runs : list irun) : bool :=
   match runs with
   | [] => false
-  | r0 :: rest => forallb (same_run r0) rest && forallb (fun r => negb (has_id (i_text r))) runs
+  | r0 :: rest => forallb (same_run r0) rest && forallb (fun r => negb (leaks r)) runs
   end.
 
 Definition draw_len : nat := 16.
